@@ -303,10 +303,12 @@ pub(crate) fn recv_batch_sync<T: Send>(
 
     let final_state = done_flag.load(Ordering::Acquire);
     if (final_state & 0x02) == 0 {
+      // The last sender left. Items it sent before leaving may still be queued
+      // (e.g. announced to another receiver): retry, Phase 1 reports
+      // Disconnected only once the queue is drained.
       let mut guard = receiver.shared.internal.lock();
       guard.waiting_sync_receivers.retain(|w| w.state != done_ptr);
       drop(guard);
-      return Err(RecvError::Disconnected);
     }
   }
 }
@@ -355,10 +357,12 @@ pub(crate) fn recv_sync<T: Send>(receiver: &Receiver<T>) -> Result<T, RecvError>
 
     let final_state = done_flag.load(Ordering::Acquire);
     if (final_state & 0x02) == 0 {
+      // The last sender left. Items it sent before leaving may still be queued
+      // (e.g. announced to another receiver): retry, Phase 1 reports
+      // Disconnected only once the queue is drained.
       let mut guard = receiver.shared.internal.lock();
       guard.waiting_sync_receivers.retain(|w| w.state != done_ptr);
       drop(guard);
-      return Err(RecvError::Disconnected);
     }
   }
 }
